@@ -51,7 +51,7 @@ func migrateSupplierExtPostCodeToInvoice(inv *bill.Invoice) {
 		ext[extKeyIssuePlace] = inv.Supplier.Ext[extKeyPostCode]
 	} else if len(inv.Supplier.Addresses) > 0 {
 		addr := inv.Supplier.Addresses[0]
-		if addr.Code != "" {
+		if addr != nil && addr.Code != "" {
 			ext[extKeyIssuePlace] = addr.Code
 		}
 	}
